@@ -872,16 +872,6 @@ int main(int argc, char** argv)
     return vf::worker_main(argc, argv, "C15", run,
                            []
                            {
-                               (void)solver_t::all().ids();
-                               (void)loss_t::all().ids();
-                               (void)splitter_t::all().ids();
-                               (void)tuner_t::all().ids();
-                               (void)lsearch0_t::all().ids();
-                               (void)lsearchk_t::all().ids();
-                               (void)wlearner_t::all().ids();
-                               (void)linear_t::all().ids();
-                               (void)generator_t::all().ids();
-                               (void)datasource_t::all().ids();
-                               (void)function_t::all().ids();
+                               vf::warm_factories();
                            });
 }
